@@ -22,6 +22,9 @@ pub struct Recorder {
     seq: AtomicU64,
     /// The recorded events, in order.
     events: Mutex<Vec<Value>>,
+    /// If set, every event is handed to this sink right away (under the lock that orders
+    /// the events) instead of being kept in memory.
+    sink: Option<Box<dyn Fn(&Value) + Send + Sync>>,
 }
 
 impl Recorder {
@@ -31,6 +34,17 @@ impl Recorder {
             epoch,
             seq: AtomicU64::new(0),
             events: Mutex::new(Vec::new()),
+            sink: None,
+        })
+    }
+
+    /// Creates a recorder that passes every event to `sink` as soon as it is recorded.
+    pub fn with_sink(epoch: Instant, sink: Box<dyn Fn(&Value) + Send + Sync>) -> Arc<Self> {
+        Arc::new(Self {
+            epoch,
+            seq: AtomicU64::new(0),
+            events: Mutex::new(Vec::new()),
+            sink: Some(sink),
         })
     }
 
@@ -53,7 +67,11 @@ impl Recorder {
                 event.insert(key, value);
             }
         }
-        events.push(Value::Object(event));
+        let event = Value::Object(event);
+        match &self.sink {
+            Some(sink) => sink(&event),
+            None => events.push(event),
+        }
     }
 
     /// Takes the events recorded so far.
